@@ -142,9 +142,11 @@ fn drive_buf<T: Transport, const N: usize>(t: T, p: &NetParams, rng: &mut SmallR
             40..=64 => {
                 dev(json!({"e":"Call","op":"receive"}));
                 match net.receive() {
-                    Ok(b) => {
+                    Ok(mut b) => {
                         next_id += 1;
-                        dev(json!({"e":"Ret","ok":true,"packet_len":b.packet_len(),"dg":fnv64(b.packet()),"idx":next_id}));
+                        // the frame as the caller sees it: through the shared or the mutable view
+                        let dg = if rng.gen_bool(0.5) { fnv64(b.packet()) } else { fnv64(b.packet_mut()) };
+                        dev(json!({"e":"Ret","ok":true,"packet_len":b.packet_len(),"dg":dg,"idx":next_id}));
                         held.push((next_id, b));
                     }
                     Err(e) => rfail(e),
